@@ -95,6 +95,10 @@ func (inputs *ReusableWorkflowMetadataInputs) UnmarshalYAML(n *yaml.Node) error 
 	for i := 0; i < len(n.Content); i += 2 {
 		k, v := n.Content[i], n.Content[i+1]
 
+		if _, ok := md[strings.ToLower(k.Value)]; ok {
+			continue // The name is duplicated. Keep the first one as the workflow parser does
+		}
+
 		var m ReusableWorkflowMetadataInput
 		if err := v.Decode(&m); err != nil {
 			return err
@@ -134,6 +138,10 @@ func (secrets *ReusableWorkflowMetadataSecrets) UnmarshalYAML(n *yaml.Node) erro
 	for i := 0; i < len(n.Content); i += 2 {
 		k, v := n.Content[i], n.Content[i+1]
 
+		if _, ok := md[strings.ToLower(k.Value)]; ok {
+			continue // The name is duplicated. Keep the first one as the workflow parser does
+		}
+
 		var m struct {
 			Required reusableWorkflowRequired `yaml:"required"`
 		}
@@ -169,6 +177,9 @@ func (outputs *ReusableWorkflowMetadataOutputs) UnmarshalYAML(n *yaml.Node) erro
 	md := make(ReusableWorkflowMetadataOutputs, len(n.Content)/2)
 	for i := 0; i < len(n.Content); i += 2 {
 		k := n.Content[i]
+		if _, ok := md[strings.ToLower(k.Value)]; ok {
+			continue // The name is duplicated. Keep the first one as the workflow parser does
+		}
 		md[strings.ToLower(k.Value)] = &ReusableWorkflowMetadataOutput{
 			Name: k.Value,
 		}
